@@ -3,3 +3,43 @@ add("C01", "trie",
     "Every ordered pair of versions of <=3 tokens over a 30-token alphabet (every branch of the tokeniser and of the padding logic has a token), all four operators, both through compiled patterns and through best_match, plus all strings <=5 over 16 characters against 24 probes. Each case runs the real code; the oracle is the dewey rule written from the statement. A wrong weight, a dropped modifier, an asymmetric padding branch or a case slip shows up at 2-3 tokens.",
     "Bounded: nothing is executed for versions longer than 3 tokens / 5 characters; digit runs <= 18 digits; reference model mc/core/src/model/dewey.rs is trusted. Known finding letter-weight-ascii is attributed only when the implementation agrees with that exact model variant on the case.",
     "DESIGN.md section 4, C01")
+add("C02", "trie",
+    "bounded exhaustive enumeration of pattern strings (structured and character-level) x name pools; reference operator scanner + dewey model; Dewey-vs-Pattern differential",
+    "Every pattern BASE x <=3 (operator, bound) pairs over 8 bases and 5 bounds, and every string <=8 over 'p - 1 < > =', each compiled with Pattern::new and Dewey::new and matched against name pools holding every near-miss base. Decides the compile rule (1 operator, or lower then upper bound), base equality before the last '-', conjunction of bounds and Dewey==Pattern on every explored string.",
+    "Bounded by pattern length; cases whose verdict depends on a single letter's weight are skipped (C01's domain); reference scanner mc/core/src/model/dewey.rs trusted.",
+    "DESIGN.md section 4, C02")
+add("C03", "laws",
+    "verdict matrix by real calls over a finite carrier; order laws closed over all pairs and triples by bitset rows (model-free)",
+    "The full relation R_op(A,B) is computed with real Pattern calls for every ordered pair of ~1 000 (quick) / ~22 000 (thorough) versions including out-of-model strings; trichotomy, duality, reflexivity, placement independence and transitivity are then checked over every pair and every triple of the carrier, and two-bound patterns against both halves. No reference model is involved, so nothing can be a modelling artefact.",
+    "Laws are established for the carrier only; the carrier has one element per tokeniser branch and per padding shape, plus 72 out-of-domain strings.",
+    "DESIGN.md section 4, C03")
+add("C04", "trie",
+    "bounded exhaustive enumeration of brace strings; independent recursive-descent expander as oracle; probes include wrong-pairing strings",
+    "Every string <=10 over '{ } , a b' and every token string <=7 over 11 pattern tokens: compile verdict vs proper nesting, and for balanced ones the match verdict against every short name, every own expansion and every string reachable by pairing a '{' with a foreign '}', compared with the union over an independently computed csh expansion.",
+    "Per-expansion verdicts come from the implementation's own non-brace matcher (covered by C02/C05); expander mc/core/src/model/brace.rs trusted; bounded by pattern length.",
+    "DESIGN.md section 4, C04")
+add("C05", "trie",
+    "bounded exhaustive enumeration of glob/plain patterns x ALL names up to length 4; DP glob matcher as oracle",
+    "Every pattern of <=4 tokens over 13 tokens (literals, * ? sets, negated sets, ranges, non-ASCII, lone ']') against every name of <=4 characters, so each decision of the first-two-characters shortcut is crossed with every continuation and the dispatch is exercised with each metacharacter alone; malformed globs at every position must be Err(Glob).",
+    "Glob subset of the statement only (no '**', <=3 '*'); reference matcher mc/core/src/model/glob.rs trusted; bounded by lengths.",
+    "DESIGN.md section 4, C05")
+add("C06", "laws",
+    "exhaustive enumeration of candidate lists, all orders and all binary reduction trees with real best_match calls; model winner as oracle",
+    "For 8 patterns and a 16-name pool: every ordered pair (None/one-of/matches/symmetry/model winner) and every candidate list of <=4 names in every order under every binary reduction tree; all routes must produce the model's winner, which establishes order- and association-independence on the explored lists.",
+    "Pool and list length bounded; reference order = dewey model + byte-wise tie-break; known finding letter-weight-ascii attributed only on exact variant agreement.",
+    "DESIGN.md section 4, C06")
+add("C07", "graph",
+    "explicit-state BFS over real Summary objects (states = clones, transitions = real setter/pusher calls), invariants on every transition against a model map",
+    "Breadth-first search from three seed states (empty, minimal complete, full) with a 58-operation menu to depth 3-4 (5 with a reduced menu): every reached object, via every history, must show the model's values through all 23 getters, print exactly the model's text, report is_completed correctly and round-trip through the parser byte for byte. This is what establishes history independence of the printed form.",
+    "Depth-bounded; states merged by the 23 getter values (complete state; size_of tripwire); reference printer/parser mc/core/src/model/summary.rs trusted.",
+    "DESIGN.md section 4, C07")
+add("C08", "trie",
+    "bounded exhaustive enumeration of line sequences spliced into three contexts; reference parser returning the set of admissible causes",
+    "Every sequence of <=3 lines (<=4 thorough) from a 53-line alphabet (all 23 variables, repeats, 12 fault shapes) before/inside/after three contexts, all 2^11 subsets of the required variables, every fault at every line of a full entry, and all reorderings of it: acceptance, parsed values and the reported cause are compared with the reference parser; is_completed() of an API-built copy must agree.",
+    "Bounded by inserted-sequence length; when several faults are present any of them is admissible; reference parser mc/core/src/model/summary.rs trusted.",
+    "DESIGN.md section 4, C08")
+add("C09", "graph",
+    "explicit-state search over real SummaryStream objects: complete transition graph (every partition of the stream is a path), plus unmerged <=3-cut partitions",
+    "For each of several streams (ASCII, 2/3/4-byte characters, full entries, 16 malformed variants) the complete graph of (bytes consumed, real object) states is explored with one real write per (state, chunk length): all 2^(n-1) partitions are covered. Every write must return Ok(len) with a prefix of the expected entries, the end state must equal the single-write result and print back the stream; malformed streams must fail by the completing write with exactly the preceding entries.",
+    "Streams are fixed (not all streams); state merging relies on (buffer, entries) being the complete object state (hook + size_of tripwire); the unmerged partition runs do not rely on it.",
+    "DESIGN.md section 4, C09")
